@@ -32,24 +32,35 @@ Vocabulary (definitions in `LoomVerif/Proofs/C08Notify.lean`, `C08Only.lean`; sp
 * `liveKeys w`        the keys with a live thread-local in the active thread, in initialisation order
                       (`Proofs/C17Tls.lean`, `liveKeys_spelled_out` in `Props/C17.lean`).
 
-FINDINGS recorded here (each with a concrete witness state in `Proofs/SyncExamples.lean`):
-F5/F6 `Park.unpark_wakes_lock_waiter` — `unpark` makes a thread that is blocked on a mutex or in a
-`join` runnable although nothing released / notified; when it runs, loom panics ("expected to be
-able to acquire lock" / `assert!(state.notified)`).  F17 `Park.unpark_raises_causality_at_once` —
-`unpark` joins the unparker's causality into the target immediately, even if the target never
-parks (the reference semantics stores it with the token and joins it at `park`).
+* `Tok.toks s i`       the `park` token of thread `i` in the thread table `s` (`false` outside the table);
+                      `Tok.tokenOp op`: `op` is `park`, `cvwait`, `unpark`, `notify_one` or `notify_all`;
+                      `Tok.parksAt c op`, `Tok.parkStage w`: the stage (about to be run by the active thread)
+                      calls `rt::park`; `Tok.NoParkRun t w w'`: a run of stages in which thread `t` runs no
+                      such stage (all in `Proofs/C08Token.lean`, spelled out in `Park.frame_defs`).
 
-REPAIRED findings (the theorems now state the repaired behaviour): F18 — a lock release used to set a
-thread with a stored unpark token (`runnable true`) whose stale pending operation names the lock back to
-`runnable false` (the token was lost; old theorem `Park.release_loses_token`); the four release sites now
-wake through `Thread.wake`, which touches blocked threads only: `Release.keeps_token`,
-`Park.release_keeps_token`.  F20 — the epilogue of a spawned thread used to notify the `JoinHandle` BEFORE
-`drop_locals` and the thread-local destructors; it now runs them first: `Join.after_destructors`,
-`Join.after_exit`.
+FINDING recorded here (with a concrete witness state in `Proofs/SyncExamples.lean`): F17
+`Park.unpark_raises_causality_at_once` — `unpark` joins the unparker's causality into the target immediately,
+even if the target never parks (the reference semantics stores it with the token and joins it at `park`).
+
+REPAIRED findings (the theorems now state the repaired behaviour).  F5/F6 — `unpark` used to make a thread
+that is blocked on a mutex or in a `join` runnable although nothing released / notified; when it ran, loom
+panicked ("expected to be able to acquire lock" / `assert!(state.notified)`; old theorem
+`Park.unpark_wakes_lock_waiter`).  The token is now a field of its own (`Thread.token`), a thread blocked in
+`park` is marked (`Thread.parked`), and `unpark` wakes ONLY a parked thread; every other live thread keeps
+the unpark as a token: `Park.unpark_wakes_only_parked`, `Park.unpark_keeps_lock_waiter_blocked`.  F18 — a lock
+release (and any blocking in between) used to destroy a stored token (old theorem
+`Park.release_loses_token`); now no helper but `set_unparked` and `rt::park` writes a token:
+`Park.token_survives_blocking`, `Park.op_frame`, `Park.step_frame`, `Release.keeps_token`,
+`Park.release_keeps_token`, and an `unpark` that comes before the `park` is never lost:
+`Park.unpark_then_park_never_blocks`.  `Notify::notify` no longer goes through `Thread::unpark`: it wakes a
+blocked waiter and hands out no token: `Notify.wakes_blocked_waiter_only`.  F20 — the epilogue of a spawned
+thread used to notify the `JoinHandle` BEFORE `drop_locals` and the thread-local destructors; it now runs them
+first: `Join.after_destructors`, `Join.after_exit`.
 -/
 import LoomVerif.Proofs.SyncExamples
 import LoomVerif.Proofs.C08Release
 import LoomVerif.Proofs.C08Epilogue
+import LoomVerif.Proofs.C08Token
 
 namespace LoomVerif
 open C12 Sy C07 C08 C17
@@ -58,7 +69,8 @@ open C12 Sy C07 C08 C17
 
 /-- `Notify::notify` after its branch point: `notified := true`, the notifier's clocks are released
 into the object (`Sync.store … .rel`), and every OTHER thread whose pending operation is on the
-object is woken through `Thread::unpark` (joins the notifier's causality, then `set_unparked`). -/
+object joins the notifier's causality and is woken if it is blocked (`Thread.wake`; not `Thread::unpark`:
+see `Notify.wakes_blocked_waiter_only`). -/
 theorem Notify.notify_effect (w : World) (o : Nat) (s : NotifySt)
     (h : w.exec.objs[o]? = some (.notify s)) :
     w.notifyEffect o = .ok
@@ -68,10 +80,32 @@ theorem Notify.notify_effect (w : World) (o : Nat) (s : NotifySt)
           threads := { w.exec.threads with threads :=
             (w.exec.threads.threads.mapIdx fun i th =>
               if i = w.tid then th
-              else if th.operation.any (fun op => op.obj == o) then th.unpark w.ths.activeT
+              else if th.operation.any (fun op => op.obj == o) then
+                ({ th with causality := th.causality.join w.ths.activeT.causality }).wake
               else th) } } } ∧
     w.ths.caus.le (s.sync.store w.ths.activeT.released w.ths.caus .rel).hb :=
   ⟨notifyEffect_eq h, (le_store_rel _ _ _).2.2⟩
+
+/-- What `notify` does to the threads, entry by entry.  A thread OTHER than the notifier whose pending
+operation is on the object joins the notifier's causality and goes through `Thread.wake`; every other entry
+is unchanged.  Hence: NOBODY receives a `park` token from a `notify` (every thread's token is what it was);
+thread `i` is woken — its state changes — EXACTLY IF it is not the notifier, its pending operation is on the
+object and it is blocked, and then it is `runnable` and not `parked`. -/
+theorem Notify.wakes_blocked_waiter_only {w w' : World} {o : Nat} {s : NotifySt}
+    (h : w.exec.objs[o]? = some (.notify s)) (hr : w.notifyEffect o = .ok w') (i : Nat) :
+    w'.ths.get i =
+      (if i ≠ w.tid ∧ ∃ op, (w.ths.get i).operation = some op ∧ op.obj = o then
+        ({ w.ths.get i with
+            causality := (w.ths.get i).causality.join w.ths.activeT.causality }).wake
+      else w.ths.get i) ∧
+    (w'.ths.get i).token = (w.ths.get i).token ∧
+    ((w'.ths.get i).state ≠ (w.ths.get i).state ↔
+      i ≠ w.tid ∧ (∃ op, (w.ths.get i).operation = some op ∧ op.obj = o) ∧
+        (w.ths.get i).state = .blocked) ∧
+    ((w'.ths.get i).state ≠ (w.ths.get i).state →
+      (w'.ths.get i).state = .runnable ∧ (w'.ths.get i).parked = false) ∧
+    ((w'.ths.get i).state = (w.ths.get i).state → (w'.ths.get i).parked = (w.ths.get i).parked) :=
+  ⟨notifyEffect_get h hr i, notifyEffect_wakes h hr i⟩
 
 /-- first half of `Notify::wait` when no spurious return is possible (`spurious = false` or
 `did_spur = true`): the path is not consulted; the waiter branches on the object and is blocked
@@ -274,32 +308,138 @@ theorem Wait.no_other_op_notifies {w w' : World} {c : TCtl} {op : Op}
     FlagNotRaised w.exec.objs w'.exec.objs :=
   runOp_flags hop h
 
-/-! ## 4. `Park.token` -/
+/-! ## 4. `Park.*`: the token -/
 
-/-- `Thread::set_unparked`, the decision table: `blocked`/`yield` ↦ `runnable false`;
-`runnable _` ↦ `runnable true` (the token is stored); `terminated` unchanged.  Nothing but the
-state changes. -/
+/-- `Thread::set_unparked`, the decision table: a thread blocked in `park` (`parked`) is woken — `runnable`,
+no longer `parked`, its token field untouched; any other live thread — running, yielded, blocked on a lock, a
+join, a receive, a notify-wait — keeps its state and stores the token; a terminated thread is unchanged.
+Nothing but `state`, `parked`, `token` ever changes. -/
 theorem Park.setUnparked_table (t : Thread) :
-    (t.state = .blocked → t.setUnparked = { t with state := .runnable false }) ∧
-    (t.state = .yield → t.setUnparked = { t with state := .runnable false }) ∧
-    (∀ b, t.state = .runnable b → t.setUnparked = { t with state := .runnable true }) ∧
-    (t.state = .terminated → t.setUnparked = t) :=
-  ⟨setUnparked_blocked, setUnparked_yield, fun _ h => setUnparked_runnable h,
-    setUnparked_terminated⟩
+    (t.parked = true → t.setUnparked = { t with state := .runnable, parked := false }) ∧
+    (t.parked = false → t.state ≠ .terminated → t.setUnparked = { t with token := true }) ∧
+    (t.parked = false → t.state = .terminated → t.setUnparked = t) ∧
+    t.setUnparked = { t with state := t.setUnparked.state, parked := t.setUnparked.parked,
+                             token := t.setUnparked.token } :=
+  ⟨setUnparked_parked, setUnparked_live, setUnparked_terminated, setUnparked_fields t⟩
 
-/-- `rt::park`: with a stored token (`runnable true`) the token is consumed — the state becomes
-`runnable false` and `schedule` is NOT called (path, objects and all other threads unchanged);
-otherwise the thread is set `blocked`, its pending operation cleared, and the scheduler runs. -/
-theorem Park.token (w : World) :
-    (w.ths.activeT.state = .runnable true →
-      w.parkNow = .ok (w.setThs (w.ths.modifyActive Thread.setRunnable))) ∧
-    (w.ths.activeT.state ≠ .runnable true →
+/-- `unpark` wakes ONLY a parked thread (findings F5/F6, repaired).  For every thread `t` (and unparker `u`):
+`set_unparked` / `Thread::unpark` change `state` only when `t.parked`; a thread blocked with `parked = false`
+— on a lock, a join, a receive, a notify-wait — STAYS blocked, stays un-parked and gets `token = true` (and,
+through `Thread::unpark`, the unparker's causality).  The same at the level of the thread table, for the target
+`id` of `Set::unpark` (active thread or not). -/
+theorem Park.unpark_wakes_only_parked :
+    (∀ t u : Thread,
+      (t.setUnparked.state ≠ t.state → t.parked = true) ∧
+      ((t.unpark u).state ≠ t.state → t.parked = true) ∧
+      (t.parked = false → t.state = .blocked →
+        t.setUnparked = { t with token := true } ∧
+        t.unpark u = { t with token := true, causality := t.causality.join u.causality } ∧
+        (t.unpark u).state = .blocked ∧ (t.unpark u).parked = false ∧ (t.unpark u).token = true)) ∧
+    (∀ (s : Threads) (id : Nat), id < s.threads.length →
+      ((s.get id).parked = false →
+        ((s.unpark id).get id).state = (s.get id).state ∧ ((s.unpark id).get id).parked = false ∧
+        ((s.unpark id).get id).token = ((s.get id).token || !(s.get id).isTerminated)) ∧
+      ((s.get id).parked = true →
+        ((s.unpark id).get id).state = .runnable ∧ ((s.unpark id).get id).parked = false ∧
+        ((s.unpark id).get id).token = (s.get id).token)) := by
+  refine ⟨fun t u => ⟨setUnparked_state_ne, fun h => ?_, fun hp hb => ?_⟩, fun s id hin => ?_⟩
+  · rw [unpark_state] at h; exact setUnparked_state_ne h
+  · have hl : t.state ≠ .terminated := by rw [hb]; simp
+    have e1 := setUnparked_live hp hl
+    have e2 : t.unpark u = { t with token := true, causality := t.causality.join u.causality } := by
+      unfold Thread.unpark
+      rw [setUnparked_live (t := { t with causality := t.causality.join u.causality }) hp hl]
+    refine ⟨e1, e2, ?_, ?_, ?_⟩ <;> rw [e2]
+    · exact hb
+    · exact hp
+  · obtain ⟨f1, f2, f3⟩ := unpark_get_fields s id hin
+    rw [f1, f2, f3]
+    refine ⟨fun hp => ?_, fun hp => ?_⟩
+    · exact setUnparked_state_of_not_parked hp
+    · rw [setUnparked_parked hp]; exact ⟨rfl, rfl, rfl⟩
+
+/-- No blocking and no waking touches the token (finding F18, repaired).  The state setters `set_blocked`,
+`Thread.wake`, `set_runnable`, `set_parked`, `set_terminated`, `set_yield` keep `token`; hence every world
+transformer used by the lock, wait, channel and arc operations and by the epilogue — the acquisitions (which
+block the other contenders), the four release sites and `notify` (which wake them), the scheduling points
+`branch` / `yield_now` / `thread_done` (which block, yield or terminate the caller and run `schedule`), both
+halves of `Notify::wait` — leaves EVERY thread's token what it was; so does `Execution::schedule` itself. -/
+theorem Park.token_survives_blocking :
+    (∀ t : Thread, t.setBlocked.token = t.token ∧ t.wake.token = t.token ∧
+      t.setRunnable.token = t.token ∧ t.setParked.token = t.token ∧
+      t.setTerminated.token = t.token ∧ ∀ id, (t.setYield id).token = t.token) ∧
+    (∀ (w w' : World) (o : Nat),
+      (∀ b, w.postAcquire o = .ok (w', b) → ∀ i, (w'.ths.get i).token = (w.ths.get i).token) ∧
+      (w.releaseLock o = .ok w' → ∀ i, (w'.ths.get i).token = (w.ths.get i).token) ∧
+      (∀ b, w.postAcquireRead o = .ok (w', b) → ∀ i, (w'.ths.get i).token = (w.ths.get i).token) ∧
+      (∀ b, w.postAcquireWrite o = .ok (w', b) → ∀ i, (w'.ths.get i).token = (w.ths.get i).token) ∧
+      (w.releaseRead o = .ok w' → ∀ i, (w'.ths.get i).token = (w.ths.get i).token) ∧
+      (w.releaseWrite o = .ok w' → ∀ i, (w'.ths.get i).token = (w.ths.get i).token) ∧
+      (∀ v, w.sendEffect o v = .ok w' → ∀ i, (w'.ths.get i).token = (w.ths.get i).token) ∧
+      (∀ v, w.recvEffect o = .ok (w', v) → ∀ i, (w'.ths.get i).token = (w.ths.get i).token) ∧
+      (∀ b, w.refDecEffect o = .ok (w', b) → ∀ i, (w'.ths.get i).token = (w.ths.get i).token) ∧
+      (w.notifyEffect o = .ok w' → ∀ i, (w'.ths.get i).token = (w.ths.get i).token) ∧
+      (∀ st, w.notifyWait1 o = .ok (w', st) → ∀ i, (w'.ths.get i).token = (w.ths.get i).token) ∧
+      (w.notifyWait2 o = .ok w' → ∀ i, (w'.ths.get i).token = (w.ths.get i).token) ∧
+      (∀ a blk, w.branch o a blk = .ok w' → ∀ i, (w'.ths.get i).token = (w.ths.get i).token) ∧
+      (w.yieldNow = .ok w' → ∀ i, (w'.ths.get i).token = (w.ths.get i).token) ∧
+      (w.threadDone = .ok w' → ∀ i, (w'.ths.get i).token = (w.ths.get i).token)) ∧
+    (∀ (e : Exec) (pk : Bool) (r : Exec × Bool), e.schedule pk = .ok r →
+      ∀ i, (r.1.threads.get i).token = (e.threads.get i).token) := by
+  refine ⟨fun t => ⟨rfl, wake_token t, rfl, rfl, rfl, fun _ => rfl⟩, fun w w' o => ?_,
+    fun e pk r h i => congrFun (Tok.schedule_toks h) i⟩
+  exact ⟨fun _ h => (Tok.Keep_iff _ _).1 (Tok.postAcquire_keep h),
+    fun h => (Tok.Keep_iff _ _).1 (Tok.releaseLock_keep h),
+    fun _ h => (Tok.Keep_iff _ _).1 (Tok.postAcquireRead_keep h),
+    fun _ h => (Tok.Keep_iff _ _).1 (Tok.postAcquireWrite_keep h),
+    fun h => (Tok.Keep_iff _ _).1 (Tok.releaseRead_keep h),
+    fun h => (Tok.Keep_iff _ _).1 (Tok.releaseWrite_keep h),
+    fun _ h => (Tok.Keep_iff _ _).1 (Tok.sendEffect_keep h),
+    fun _ h => (Tok.Keep_iff _ _).1 (Tok.recvEffect_keep h),
+    fun _ h => (Tok.Keep_iff _ _).1 (Tok.refDecEffect_keep h),
+    fun h => (Tok.Keep_iff _ _).1 (Tok.notifyEffect_keep h),
+    fun _ h => (Tok.Keep_iff _ _).1 (Tok.notifyWait1_keep h),
+    fun h => (Tok.Keep_iff _ _).1 (Tok.notifyWait2_keep h),
+    fun _ _ h => (Tok.Keep_iff _ _).1 (Tok.branch_keep h),
+    fun h => (Tok.Keep_iff _ _).1 (Tok.yieldNow_keep h),
+    fun h => (Tok.Keep_iff _ _).1 (Tok.threadDone_keep h)⟩
+
+/-- `rt::park`.  With a stored token the token is consumed: `token := false` and NOTHING else — `schedule` is
+not called, so the path, the objects, the active thread and every thread's `state`, `parked`, `operation` are
+what they were (in particular the parker's state is unchanged: it does not block).  Without a token the thread
+is blocked in `park` — before `schedule` runs it is `parked`, `blocked`, its pending operation cleared — and
+the scheduler runs. -/
+theorem Park.park_consumes_token (w : World) :
+    (w.ths.activeT.token = true →
+      w.parkNow = .ok (w.setThs (w.ths.modifyActive fun th => { th with token := false })) ∧
+      ∀ w', w.parkNow = .ok w' →
+        w'.exec.path = w.exec.path ∧ w'.exec.objs = w.exec.objs ∧ w'.ths.active = w.ths.active ∧
+        w'.ths.activeT.token = false ∧
+        ∀ i, (w'.ths.get i).state = (w.ths.get i).state ∧ (w'.ths.get i).parked = (w.ths.get i).parked ∧
+          (w'.ths.get i).operation = (w.ths.get i).operation ∧
+          (i ≠ w.tid → w'.ths.get i = w.ths.get i)) ∧
+    (w.ths.activeT.token = false →
       w.parkNow = (do
         let (e, _) ← ({ w.exec with threads :=
-            (w.ths.modifyActive fun th => { th.setBlocked with operation := none }) }).schedule
+            (w.ths.modifyActive fun th => { th.setParked with operation := none }) }).schedule
               w.panicking
-        pure { w with exec := e })) :=
-  ⟨parkNow_token, parkNow_block⟩
+        pure { w with exec := e }) ∧
+      (w.tid < w.ths.threads.length →
+        (w.ths.modifyActive fun th => { th.setParked with operation := none }).activeT =
+          { w.ths.activeT with state := .blocked, parked := true, operation := none })) := by
+  refine ⟨fun ht => ⟨parkNow_token ht, fun w' hw' => ?_⟩, fun ht => ⟨parkNow_block ht, fun hin => ?_⟩⟩
+  · rw [parkNow_token ht] at hw'
+    cases hw'
+    have hin : w.ths.activeId < w.ths.threads.length := Tok.toks_lt (s := w.ths) (i := w.tid) ht
+    refine ⟨rfl, rfl, rfl, ?_, fun i => ?_⟩
+    · show ((w.ths.modify w.ths.activeId _).get w.ths.activeId).token = false
+      rw [get_modify_self _ _ _ hin]
+    · obtain ⟨a, b, c⟩ := Tok.state_modifyActive_token w.ths i
+      exact ⟨a, b, c, fun hi => get_modify_ne _ _ _ _ hi⟩
+  · have hin' : w.ths.activeId < w.ths.threads.length := hin
+    show (w.ths.modify w.ths.activeId _).get w.ths.activeId = _
+    rw [get_modify_self _ _ _ hin']
+    rfl
 
 /-- `Set::unpark id`: for `id ≠ active` the unparker's causality is joined into the target
 (`Wait.notifier_hb` for unpark: the target's causality is at once above the unparker's) and
@@ -311,87 +451,231 @@ theorem Park.unpark (s : Threads) (id : Nat) :
     (id ≠ s.activeId → id < s.threads.length →
       s.caus.le ((s.unpark id).get id).causality ∧
       ((s.unpark id).get id).state = (s.get id).setUnparked.state ∧
+      ((s.unpark id).get id).parked = (s.get id).setUnparked.parked ∧
+      ((s.unpark id).get id).token = (s.get id).setUnparked.token ∧
       ∀ j, j ≠ id → (s.unpark id).get j = s.get j) := by
   refine ⟨fun h => unpark_other h, fun h => by rw [h]; exact unpark_self s, fun h hin => ?_⟩
   obtain ⟨h1, h2, h3⟩ := unpark_other_get h hin
-  exact ⟨h2, by rw [h1, unpark_state], h3⟩
+  exact ⟨h2, by rw [h1, unpark_state], by rw [h1, unpark_parked], by rw [h1, unpark_token], h3⟩
 
-/-- Refuted full form (findings F5/F6): `set_unparked` does not ask WHY the target is blocked.
-`Ex.wF5`: thread 1 is blocked in `lock` on a mutex held by thread 0; thread 0's `unpark 1` makes it
-`runnable` while the mutex is still held; when thread 1 runs (`Ex.wF5'`) its `lock` panics with
-"expected to be able to acquire lock".  `Ex.wF6`: thread 0 is blocked in `join 1`, thread 2's
-`unpark 0` makes it runnable; its `join` then panics on `assert!(state.notified)`. -/
-theorem Park.unpark_wakes_lock_waiter :
-    ((Ex.wF5.ths.get 1).state = .blocked ∧
+/-- The vocabulary of the frame theorem, spelled out. -/
+theorem Park.frame_defs (s : Threads) (w w' : World) (c : TCtl) (op : Op) (t i : Nat) :
+    Tok.toks s i = (s.get i).token ∧
+    (Tok.tokenOp op = true ↔ op = .park ∨ (∃ vi mi, op = .cvWait vi mi) ∨ (∃ b, op = .unpark b) ∨
+      (∃ vi, op = .cvOne vi) ∨ (∃ vi, op = .cvAll vi)) ∧
+    (Tok.parksAt c op = true ↔ (op = .park ∧ c.stage = 0) ∨ (∃ vi mi, op = .cvWait vi mi ∧ c.stage = 1)) ∧
+    Tok.parkStage w =
+      (match (w.prog.threads.getD (w.ctlOf w.tid).body [])[(w.ctlOf w.tid).pc]? with
+       | some op => Tok.parksAt (w.ctlOf w.tid) op
+       | none => false) ∧
+    (Tok.NoParkRun t w w' ↔ w' = w ∨ ∃ w1, Tok.NoParkRun t w w1 ∧ w1.stepActive = .ok w' ∧
+      (w1.tid = t → Tok.parkStage w1 = false)) := by
+  refine ⟨rfl, ?_, ?_, rfl, ?_⟩
+  · cases op <;> simp [Tok.tokenOp]
+  · cases op <;> simp [Tok.parksAt]
+  · constructor
+    · intro h
+      cases h with
+      | refl => exact .inl rfl
+      | step hr hs hp => exact .inr ⟨_, hr, hs, hp⟩
+    · rintro (rfl | ⟨w1, hr, hs, hp⟩)
+      · exact .refl _
+      · exact .step hr hs hp
+
+/-- The frame theorem of the token, per operation.  (a) every stage of every operation other than `park`,
+`cvwait`, `unpark`, `notify_one`, `notify_all` keeps EVERY thread's token; (b) `unpark b` takes no token away and
+changes at most the target's (the thread table becomes `Set::unpark t`); (c) `notify_one` / `notify_all` take no
+token away; (d) `park` / `cvwait` keep the tokens of all OTHER threads; their stage that calls `rt::park`
+(stage 0 / stage 1) leaves the parker without a token, their other stages keep its token too. -/
+theorem Park.op_frame {w w' : World} {c : TCtl} {op : Op} (h : w.runOp c op = .ok w') :
+    (Tok.tokenOp op = false → ∀ i, (w'.ths.get i).token = (w.ths.get i).token) ∧
+    (∀ b, op = .unpark b →
+      (∀ i, (w.ths.get i).token = true → (w'.ths.get i).token = true) ∧
+      ∃ t, w.threadOf b = .ok t ∧ w'.ths = w.ths.unpark t ∧
+        ∀ i, i ≠ t → (w'.ths.get i).token = (w.ths.get i).token) ∧
+    ((∃ vi, op = .cvOne vi) ∨ (∃ vi, op = .cvAll vi) →
+      ∀ i, (w.ths.get i).token = true → (w'.ths.get i).token = true) ∧
+    (op = .park ∨ (∃ vi mi, op = .cvWait vi mi) →
+      (∀ i, i ≠ w.tid → (w'.ths.get i).token = (w.ths.get i).token) ∧
+      (Tok.parksAt c op = false → ∀ i, (w'.ths.get i).token = (w.ths.get i).token) ∧
+      (Tok.parksAt c op = true → (w'.ths.get w.tid).token = false)) := by
+  refine ⟨fun hop => (Tok.Keep_iff _ _).1 (Tok.runOp_keep hop h), ?_, ?_, ?_⟩
+  · rintro b rfl
+    exact Tok.runOp_unpark h
+  · rintro (⟨vi, rfl⟩ | ⟨vi, rfl⟩)
+    · exact Tok.runOp_cvOne h
+    · exact Tok.runOp_cvAll h
+  · rintro (rfl | ⟨vi, mi, rfl⟩)
+    · obtain ⟨h1, h2, h3⟩ := Tok.runOp_park h
+      refine ⟨h1, fun hp => (Tok.Keep_iff _ _).1 (h2 (by simpa [Tok.parksAt] using hp)),
+        fun hp => h3 (by simpa [Tok.parksAt] using hp)⟩
+    · obtain ⟨h1, h2, h3⟩ := Tok.runOp_cvWait h
+      refine ⟨h1, fun hp => (Tok.Keep_iff _ _).1 (h2 (by simpa [Tok.parksAt] using hp)),
+        fun hp => h3 (by simpa [Tok.parksAt] using hp)⟩
+
+/-- The frame theorem of the token, per step: ONE stage of the active thread (`World.stepActive`: any stage of
+any operation — atomics, cells, locks, condvars, notifies, channels, `Arc`s, thread-locals, lazy statics,
+futures, `spawn`, `join`, `yield` … — or of the epilogue), in any world, takes NO token away — except that the
+stage that calls `rt::park` consumes the parker's own; and a stage of an operation other than `park`, `cvwait`,
+`unpark`, `notify_one`, `notify_all` changes no token at all. -/
+theorem Park.step_frame {w w' : World} (h : w.stepActive = .ok w') :
+    (∀ i, (i = w.tid → Tok.parkStage w = false) → (w.ths.get i).token = true →
+      (w'.ths.get i).token = true) ∧
+    ((∀ op, (w.prog.threads.getD (w.ctlOf w.tid).body [])[(w.ctlOf w.tid).pc]? = some op →
+        Tok.tokenOp op = false) →
+      ∀ i, (w'.ths.get i).token = (w.ths.get i).token) :=
+  ⟨fun i hp hi => Tok.stepActive_mono h i hp hi,
+    fun hop => (Tok.Keep_iff _ _).1 (Tok.stepActive_keep h hop)⟩
+
+/-- **An `unpark` that comes before the `park` is never lost** (findings F5/F6/F18, repaired).  Thread `t` is
+live and not blocked in `park` in `w0` (running, yielded, or blocked on a lock / join / receive / notify-wait);
+`w1` is any world whose thread table is `Set::unpark t` of that of `w0`; from `w1` the twin runs ANY stages of
+ANY threads (`Tok.NoParkRun`: lock, unlock, join, … stages of the other threads and of `t` itself, blocking
+and waking `t` any number of times) among which `t` runs no stage that calls `rt::park`; then `t`, active in
+`w`, calls `rt::park`: it still has the token, and `park` returns at once — the token is cleared and nothing
+else happens: no scheduling point, the path, the objects, the active thread and every thread's state are what
+they were; `t` does not block. -/
+theorem Park.unpark_then_park_never_blocks {w0 w1 w : World} {t : Nat}
+    (hin : t < w0.ths.threads.length) (hp : (w0.ths.get t).parked = false)
+    (hl : (w0.ths.get t).state ≠ .terminated)
+    (hu : w1.ths = w0.ths.unpark t) (hrun : Tok.NoParkRun t w1 w) (ht : w.tid = t) :
+    (w1.ths.get t).token = true ∧ (w.ths.get t).token = true ∧
+    w.parkNow = .ok (w.setThs (w.ths.modifyActive fun th => { th with token := false })) ∧
+    ∀ w', w.parkNow = .ok w' →
+      w'.exec.path = w.exec.path ∧ w'.exec.objs = w.exec.objs ∧ w'.ths.active = w.ths.active ∧
+      (w'.ths.get t).token = false ∧
+      ∀ i, (w'.ths.get i).state = (w.ths.get i).state ∧ (w'.ths.get i).parked = (w.ths.get i).parked := by
+  obtain ⟨h2, h3⟩ := Tok.unpark_then_park hin hp hl hu hrun ht
+  have h1 : (w1.ths.get t).token = true := by
+    show Tok.toks w1.exec.threads t = true
+    rw [show w1.exec.threads = w0.exec.threads.unpark t from hu]
+    exact Tok.toks_unpark_target hin hp hl
+  have hact : w.ths.activeT.token = true := by
+    have : (w.ths.get w.tid).token = true := by rw [ht]; exact h2
+    exact this
+  obtain ⟨_, hcons⟩ := (Park.park_consumes_token w).1 hact
+  refine ⟨h1, h2, h3, fun w' hw' => ?_⟩
+  obtain ⟨a, b, c, d, e⟩ := hcons w' hw'
+  refine ⟨a, b, c, ?_, fun i => ⟨(e i).1, (e i).2.1⟩⟩
+  have : w'.ths.activeT = w'.ths.get t := by
+    show w'.ths.get w'.ths.activeId = _
+    have : w'.ths.activeId = w.ths.activeId := by unfold Threads.activeId; rw [c]
+    rw [this]; exact congrArg _ ht
+  rw [← this]; exact d
+
+/-- … in particular when the unpark is the operation `unpark b` (run by any thread, `t` itself included). -/
+theorem Park.unpark_op_then_park_never_blocks {w0 w1 w : World} {c : TCtl} {b t : Nat}
+    (hb : w0.threadOf b = .ok t) (hin : t < w0.ths.threads.length)
+    (hp : (w0.ths.get t).parked = false) (hl : (w0.ths.get t).state ≠ .terminated)
+    (hu : w0.runOp c (.unpark b) = .ok w1) (hrun : Tok.NoParkRun t w1 w) (ht : w.tid = t) :
+    (w1.ths.get t).token = true ∧ (w1.ths.get t).state = (w0.ths.get t).state ∧
+    w.parkNow = .ok (w.setThs (w.ths.modifyActive fun th => { th with token := false })) := by
+  obtain ⟨_, t', ht', hth, _⟩ := Tok.runOp_unpark hu
+  rw [hb] at ht'; cases ht'
+  obtain ⟨a, _, c', _⟩ := Park.unpark_then_park_never_blocks hin hp hl hth hrun ht
+  refine ⟨a, ?_, c'⟩
+  show (w1.exec.threads.get t).state = _
+  rw [hth]
+  exact ((Park.unpark_wakes_only_parked.2 w0.ths t hin).1 hp).1
+
+/-- Findings F5/F6, repaired, concretely (kernel-checked).  `Ex.wF5`: thread 1 is blocked in `lock` on a mutex
+held by thread 0; thread 0's `unpark 1` leaves it BLOCKED (not parked), with the token, the mutex still held;
+thread 0's `release_lock` then wakes it, token kept (`Ex.wF5r`); scheduled, its `lock` acquires the mutex and
+its next `park` consumes the token and returns without blocking (`Ex.wF5run`).  `Ex.wF6`: thread 0 is blocked in
+`join 1`; thread 2's `unpark 0` leaves it blocked with the token; when thread 1 notifies the `JoinHandle`,
+thread 0 is woken and its `join` returns normally, token kept (`Ex.wF6run`).  The states the old defect led to
+(`Ex.wF5'`, `Ex.wF6old`: runnable in the second stage of `lock` / `join` with the mutex held / the flag not set)
+still panic in the model; `unpark` no longer produces them. -/
+theorem Park.unpark_keeps_lock_waiter_blocked :
+    ((Ex.wF5.ths.get 1).state = .blocked ∧ (Ex.wF5.ths.get 1).parked = false ∧
       (Ex.wF5.ths.get 1).operation = some ⟨Ex.wF5.mutexObj 0, .opaque⟩) ∧
     (Ex.wF5.runOp {} (.unpark 1)).toOption.map
-      (fun w' => ((w'.ths.get 1).state, (w'.getMutex 0).toOption.map (·.lock))) =
-      some (.runnable false, some (some 0)) ∧
+      (fun w' => ((w'.ths.get 1).state, (w'.ths.get 1).token, (w'.ths.get 1).parked,
+        (w'.getMutex 0).toOption.map (·.lock))) =
+      some (.blocked, true, false, some (some 0)) ∧
+    Ex.wF5r.toOption.map (fun w' => ((w'.ths.get 1).state, (w'.ths.get 1).token)) =
+      some (.runnable, true) ∧
+    Ex.wF5run.toOption.map (fun w' => ((w'.ths.get 1).state, (w'.ths.get 1).token, w'.ths.active,
+        (w'.getMutex 0).toOption.map (·.lock))) =
+      some (.runnable, false, some 1, some (some 1)) ∧
+    ((Ex.wF6.ths.get 0).state = .blocked ∧ (Ex.wF6.ths.get 0).parked = false ∧
+      (Ex.wF6.ths.get 0).operation = some ⟨4, .opaque⟩) ∧
+    (Ex.wF6.runOp { body := 2 } (.unpark 0)).toOption.map
+      (fun w' => ((w'.ths.get 0).state, (w'.ths.get 0).token, (w'.ths.get 0).parked)) =
+      some (.blocked, true, false) ∧
+    Ex.wF6run.toOption.map (fun w' => ((w'.ths.get 0).state, (w'.ths.get 0).token,
+      w'.events.head?.map (·.ret))) = some (.runnable, true, some .unit) ∧
     (match Ex.wF5'.runOp { body := 1, stage := 1 } (.lock 0) with
       | .error .expectedLock => true | _ => false) = true ∧
-    (Ex.wF6.runOp { body := 2 } (.unpark 0)).toOption.map (fun w' => (w'.ths.get 0).state) =
-      some (.runnable false) ∧
-    (match Ex.wF6'.runOp { stage := 1 } (.join 1) with
+    (match Ex.wF6old.runOp { stage := 1 } (.join 1) with
       | .error .notNotified => true | _ => false) = true :=
-  ⟨by decide, Ex.F5_unpark, Ex.F5_panic.2, Ex.F6_unpark, Ex.F6_panic⟩
+  ⟨by decide, Ex.F5_unpark, Ex.F5_no_panic.1, Ex.F5_no_panic.2, by decide, Ex.F6_unpark,
+    Ex.F6_no_panic, Ex.F5_old_state_panics, Ex.F6_old_state_panics⟩
 
 /-- Refuted full form (finding F17): the unparker's causality reaches the target at the `unpark`,
 not at the target's `park`.  `Ex.wF17`: thread 1 (causality `[1,1,0,0,0]`) is runnable and never
-parks; after thread 0 (causality `[5,0,0,0,0]`) unparks it, its causality is `[5,1,0,0,0]`. -/
+parks; after thread 0 (causality `[5,0,0,0,0]`) unparks it, its causality is `[5,1,0,0,0]` (it is still
+`runnable` and holds the token). -/
 theorem Park.unpark_raises_causality_at_once :
     (Ex.wF17.ths.get 1).causality = Ex.vv [1, 1, 0, 0, 0] ∧
     ((Ex.wF17.ths.unpark 1).get 1).causality = Ex.vv [5, 1, 0, 0, 0] ∧
-    ((Ex.wF17.ths.unpark 1).get 1).state = .runnable true :=
-  ⟨by decide +kernel, Ex.F17_unpark.1, Ex.F17_unpark.2⟩
+    ((Ex.wF17.ths.unpark 1).get 1).state = .runnable ∧
+    ((Ex.wF17.ths.unpark 1).get 1).token = true :=
+  ⟨by decide +kernel, Ex.F17_unpark.1, Ex.F17_unpark.2.1, Ex.F17_unpark.2.2⟩
 
 /-- The four release sites — `Mutex::release_lock`, `RwLock::release_read_lock`,
-`RwLock::release_write_lock` and the send into an empty channel — in ANY world, on ANY object: a thread
-that is not blocked keeps its whole entry, whatever its pending operation names (since the repair of finding
-F18 the wake-up is `Thread.wake`: `if t.isBlocked then t.setRunnable else t`).  In particular a thread
-other than the active one that holds an unpark token (`runnable true`) still holds it afterwards: its next
-`park` returns at once.  Conversely a BLOCKED thread other than the active one whose pending operation is on
-the released mutex is made `runnable false` (and nothing else of it changes). -/
+`RwLock::release_write_lock` and the send into an empty channel — in ANY world, on ANY object: EVERY thread's
+unpark token is what it was (the wake-up is `Thread.wake`: `if t.isBlocked then t.setRunnable else t`, and
+`set_runnable` does not touch the token) — whether the thread is left alone or woken: its next `park` returns
+at once if it held a token.  A thread that is not blocked keeps its whole entry, whatever its pending
+operation names.  Conversely a BLOCKED thread other than the active one whose pending operation is on the
+released object is made `runnable`, not `parked` (and nothing else of it changes). -/
 theorem Release.keeps_token (w w' : World) (o i : Nat) :
+    ((w.releaseLock o = .ok w' → (w'.ths.get i).token = (w.ths.get i).token) ∧
+      (w.releaseRead o = .ok w' → (w'.ths.get i).token = (w.ths.get i).token) ∧
+      (w.releaseWrite o = .ok w' → (w'.ths.get i).token = (w.ths.get i).token) ∧
+      (∀ v, w.sendEffect o v = .ok w' → (w'.ths.get i).token = (w.ths.get i).token)) ∧
     ((w.ths.get i).state ≠ .blocked →
       (w.releaseLock o = .ok w' → w'.ths.get i = w.ths.get i) ∧
       (w.releaseRead o = .ok w' → w'.ths.get i = w.ths.get i) ∧
       (w.releaseWrite o = .ok w' → w'.ths.get i = w.ths.get i) ∧
       (∀ v, w.sendEffect o v = .ok w' → w'.ths.get i = w.ths.get i)) ∧
-    (i ≠ w.tid → (w.ths.get i).state = .runnable true →
-      (w.releaseLock o = .ok w' → (w'.ths.get i).state = .runnable true) ∧
-      (w.releaseRead o = .ok w' → (w'.ths.get i).state = .runnable true) ∧
-      (w.releaseWrite o = .ok w' → (w'.ths.get i).state = .runnable true) ∧
-      (∀ v, w.sendEffect o v = .ok w' → (w'.ths.get i).state = .runnable true)) ∧
+    (∀ p, ((w.forOthers p Thread.wake).ths.get i).token = (w.ths.get i).token) ∧
     (∀ p, (w.ths.get i).state ≠ .blocked →
       (w.forOthers p Thread.wake).ths.get i = w.ths.get i) ∧
     (∀ p op, i ≠ w.tid → (w.ths.get i).operation = some op → p op = true →
       (w.ths.get i).state = .blocked →
-      (w.forOthers p Thread.wake).ths.get i = { w.ths.get i with state := .runnable false }) := by
-  refine ⟨fun hb => ⟨releaseLock_keeps_unblocked hb, releaseRead_keeps_unblocked hb,
+      (w.forOthers p Thread.wake).ths.get i =
+        { w.ths.get i with state := .runnable, parked := false }) :=
+  ⟨⟨fun h => (Tok.Keep_iff _ _).1 (Tok.releaseLock_keep h) i,
+      fun h => (Tok.Keep_iff _ _).1 (Tok.releaseRead_keep h) i,
+      fun h => (Tok.Keep_iff _ _).1 (Tok.releaseWrite_keep h) i,
+      fun _ h => (Tok.Keep_iff _ _).1 (Tok.sendEffect_keep h) i⟩,
+    fun hb => ⟨releaseLock_keeps_unblocked hb, releaseRead_keeps_unblocked hb,
       releaseWrite_keeps_unblocked hb, fun _ => sendEffect_keeps_unblocked hb⟩,
-    fun _ hst => ?_, fun p hb => forOthers_wake_get w p i hb,
+    fun p => forOthers_token w p _ wake_token i,
+    fun p hb => forOthers_wake_get w p i hb,
     fun p op hi hop hp hb => forOthers_wake_blocked w p i op hi hop hp hb⟩
-  have hb : (w.ths.get i).state ≠ .blocked := by rw [hst]; simp
-  refine ⟨fun h => ?_, fun h => ?_, fun h => ?_, fun v h => ?_⟩
-  · rw [releaseLock_keeps_unblocked hb h, hst]
-  · rw [releaseRead_keeps_unblocked hb h, hst]
-  · rw [releaseWrite_keeps_unblocked hb h, hst]
-  · rw [sendEffect_keeps_unblocked hb h, hst]
 
-/-- Finding F18, repaired (the refuted form was `Park.release_loses_token`: the release set thread 1
-`runnable false`).  `Ex.wF18`: thread 1 is `runnable true` (token pending) and its stale pending operation
-names the mutex; after thread 0's `release_lock` it is STILL `runnable true`.  `Ex.wF18b`: the same state
-with thread 1 blocked on the mutex: the release makes it `runnable false`. -/
+/-- Finding F18, repaired, concretely (the refuted form was `Park.release_loses_token`).  `Ex.wF18`: thread 1
+is runnable with a token pending and its stale pending operation names the mutex; after thread 0's
+`release_lock` it is unchanged: runnable, token kept.  `Ex.wF18b`: thread 1 is BLOCKED on the mutex and holds a
+token (it was unparked while blocked): the release wakes it and the token is kept.  `Ex.wF18c`: thread 1, active
+with a token stored, runs the first stage of `lock` on the mutex held by thread 0: it blocks (not parked) and
+keeps the token. -/
 theorem Park.release_keeps_token :
-    ((Ex.wF18.ths.get 1).state = .runnable true ∧
+    ((Ex.wF18.ths.get 1).state = .runnable ∧ (Ex.wF18.ths.get 1).token = true ∧
       (Ex.wF18.ths.get 1).operation = some ⟨Ex.wF18.mutexObj 0, .opaque⟩) ∧
-    (Ex.wF18.releaseLock 0).toOption.map (fun w' => (w'.ths.get 1).state) =
-      some (.runnable true) ∧
-    ((Ex.wF18b.ths.get 1).state = .blocked ∧
+    (Ex.wF18.releaseLock 0).toOption.map (fun w' => ((w'.ths.get 1).state, (w'.ths.get 1).token)) =
+      some (.runnable, true) ∧
+    ((Ex.wF18b.ths.get 1).state = .blocked ∧ (Ex.wF18b.ths.get 1).token = true ∧
       (Ex.wF18b.ths.get 1).operation = some ⟨Ex.wF18b.mutexObj 0, .opaque⟩) ∧
-    (Ex.wF18b.releaseLock 0).toOption.map (fun w' => (w'.ths.get 1).state) =
-      some (.runnable false) :=
-  ⟨by decide, Ex.F18_token_kept, by decide, Ex.F18_blocked_woken⟩
+    (Ex.wF18b.releaseLock 0).toOption.map (fun w' => ((w'.ths.get 1).state, (w'.ths.get 1).token)) =
+      some (.runnable, true) ∧
+    (Ex.wF18c.runOp { body := 1 } (.lock 0)).toOption.map
+      (fun w' => ((w'.ths.get 1).state, (w'.ths.get 1).token, (w'.ths.get 1).parked, w'.ths.active)) =
+      some (.blocked, true, false, some 0) :=
+  ⟨by decide, Ex.F18_token_kept, by decide, Ex.F18_blocked_woken, Ex.F18_token_survives_blocking⟩
 
 /-! ## 5. `Condvar` -/
 
@@ -649,12 +933,23 @@ theorem Notify.example :
       | .error .notNotified => true | _ => false) = true := by
   constructor <;> decide +kernel
 
-/-- park / unpark, concretely: in `Ex.wF17` thread 0 unparks the runnable thread 1 (token stored:
-`runnable true`); thread 1's `park` then consumes the token without blocking (`runnable false`). -/
+/-- park / unpark, concretely: in `Ex.wF17` thread 0 unparks the runnable thread 1 (token stored, state still
+`runnable`); thread 1's `park` then consumes the token without blocking (still `runnable`, still the active
+thread, token gone).  Without the unpark the same `park` blocks (thread 0 parks in `Ex.wF17`: it is `blocked`
+and `parked`, and thread 1 runs); an `unpark` of a parked thread (`Ex.wPark`) wakes it without leaving a
+token. -/
 theorem Park.example :
     ((Ex.wF17.setThs ((Ex.wF17.ths.unpark 1))).setThs
         { (Ex.wF17.ths.unpark 1) with active := some 1 }).parkNow.toOption.map
-      (fun w' => (w'.ths.get 1).state) = some (.runnable false) := by
-  decide +kernel
+      (fun w' => ((w'.ths.get 1).state, (w'.ths.get 1).token, w'.ths.active)) =
+      some (.runnable, false, some 1) ∧
+    (Ex.wF17.parkNow).toOption.map
+      (fun w' => ((w'.ths.get 0).state, (w'.ths.get 0).parked, (w'.ths.get 0).token, w'.ths.active)) =
+      some (.blocked, true, false, some 1) ∧
+    (Ex.wPark.runOp {} (.unpark 1)).toOption.map
+      (fun w' => ((w'.ths.get 1).state, (w'.ths.get 1).token, (w'.ths.get 1).parked,
+        (w'.ths.get 1).causality)) =
+      some (.runnable, false, false, Ex.vv [2, 1, 0, 0, 0]) :=
+  ⟨by decide +kernel, Ex.park_blocks, Ex.park_unpark_wakes⟩
 
 end LoomVerif
